@@ -94,7 +94,7 @@ def plan(tier, seed):
 
     rng = random.Random(seed + 41)
     progs = []
-    n_small, n_rand = (500, 900) if tier == "quick" else (6000, 12000)
+    n_small, n_rand = (800, 2200) if tier == "quick" else (6000, 14000)
     for _ in range(n_small):
         progs.append(pg.gen_program(rng, nsites=rng.randint(1, 2), nparams=rng.randint(0, 2), max_depth=1))
     for _ in range(n_rand):
